@@ -49,12 +49,15 @@ pub struct Profile {
     pub host: usize,
     /// weight (0..100) of loops that allocate garbage (strings, tables, closures) with bounded live data
     pub garbage: usize,
+    /// host functions that handle a failure of the function they call back (try0 / try1); outside the reference semantics,
+    /// used by the budget and instruction-level drivers only
+    pub try_natives: bool,
 }
 
 impl Profile {
     pub fn named(name: &str) -> Profile {
         let base = Profile { nfns: 3, max_depth: 3, stmts: 6, closures: 2, tables: 4, mixed_coercions: 2, while_decl: false,
-                             natives: true, many_globals: false, stdlib: 0, safe_arrays: true, errors: 0, host: 0, garbage: 0 };
+                             natives: true, many_globals: false, stdlib: 0, safe_arrays: true, errors: 0, host: 0, garbage: 0, try_natives: false };
         match name {
             "basic" => Profile { nfns: 2, closures: 0, tables: 2, ..base },
             "calls" => Profile { nfns: 5, closures: 1, stmts: 5, ..base },
@@ -67,6 +70,7 @@ impl Profile {
             "arrays" => Profile { safe_arrays: false, tables: 8, ..base },
             "alloc" => Profile { garbage: 30, tables: 6, closures: 3, nfns: 2, stdlib: 3, ..base },
             "host" => Profile { host: 35, nfns: 3, closures: 4, stmts: 7, ..base },
+            "hosttry" => Profile { host: 35, nfns: 3, closures: 4, stmts: 7, stdlib: 2, try_natives: true, ..base },
             "errors" => Profile { errors: 6, nfns: 3, closures: 3, ..base },
             "std" => Profile { stdlib: 8, tables: 6, closures: 3, ..base },
             _ => base,
@@ -427,6 +431,27 @@ impl<'a> Gen<'a> {
             }).collect();
             let c = if self.w(3) { dyncall(named("NativeFunction", &n.name, vec![]), args) } else { native(&n.name, args) };
             return vec![setg(&g, c)];
+        }
+        if self.prof.try_natives && self.w(4) {
+            // a host function that handles the failure of its callee: the callee runs a few instructions (sometimes through a
+            // library native with callbacks) and then fails
+            let p = self.fresh("p");
+            let g2 = format!("g{}", self.rng.below(5));
+            let fail = self.error_card(cx);
+            let mut body = vec![setg(&g2, card("Add", vec![read(&p), int(1)]))];
+            if self.w(4) {
+                let h = format!("h{}", self.rng.below(3));
+                body.push(setg(&h, card("CreateTable", vec![])));
+                for x in 0..3 {
+                    body.push(card("AppendTable", vec![int(x), read(&h)]));
+                }
+                let (k1, v1) = (self.fresh("k"), self.fresh("e"));
+                body.push(setg(&g2, call("std.sorted_by_key", vec![closure(&[&k1, &v1], vec![native("fail0", vec![]), card("Return", vec![read(&v1)])]), read(&h)])));
+            }
+            body.push(fail);
+            body.push(card("Return", vec![read(&p)]));
+            let arg = self.expr(cx, Ty::Int, 1);
+            return vec![setg(&g, native("try1", vec![closure(&[&p], body), arg]))];
         }
         // re-entry
         let k = self.rng.below(3);
